@@ -371,12 +371,6 @@ Proof.
   exists frc, frm. exact (st_frag _ _ _ _ _ _ _ S).
 Qed.
 
-Lemma rejects_geom_not_3n r : (List.length (r_geom r) mod 3 <> 0)%nat -> forall m, from_arrays r <> Ok m.
-Proof.
-  intros Hn m H. destruct (accepted_geom _ _ H) as (pts & Ht & _). apply triples_length in Ht.
-  rewrite Ht in Hn. apply Hn. rewrite Nat.mul_comm. apply Nat.mod_mul. discriminate.
-Qed.
-
 Lemma rejects_too_close r pts i j p q :
   triples (r_geom r) = Ok pts -> (i < j)%nat -> nth_error pts i = Some p -> nth_error pts j = Some q ->
   (dist2 p q < r_tooclose r * r_tooclose r)%Q -> forall m, from_arrays r <> Ok m.
@@ -475,15 +469,17 @@ Qed.
 (* ------------------------------------------------------------------------------------------ *)
 (** * Which errors can be raised *)
 
-Lemma closed_units r : closed (units_stage r).
+Lemma units_err r k : units_stage r = Err k -> k = Validation.
 Proof.
-  unfold units_stage. apply closed_obind.
-  - destruct (r_conn r) as [l|]; [|exact I]. apply closed_obind; [|intros; exact I].
-    apply closed_mapM. intros [[a1 a2] bo]. unfold conn_entry.
-    destruct (a1 <? 0); [left; reflexivity|]. destruct (a2 <? 0); [left; reflexivity|].
-    destruct (_ || _); [left; reflexivity | exact I].
-  - intros conn _. destruct (_ || _); [|left; reflexivity].
-    destruct (r_iutau r); [destruct (Qlt_b _ _); [exact I | left; reflexivity] | exact I].
+  unfold units_stage. destruct (r_conn r) as [l|]; cbn [obind].
+  - destruct (mapM conn_entry l) as [c|k'] eqn:Ec; cbn [obind].
+    + destruct (_ || _); [|congruence]. destruct (r_iutau r); [destruct (Qlt_b _ _)|]; congruence.
+    + intro H. injection H as <-. revert k' Ec. induction l as [|e l IH]; intros k' Ec; simpl in Ec; [discriminate|].
+      destruct (conn_entry e) as [y|ke] eqn:Ee; simpl in Ec.
+      * destruct (mapM conn_entry l) eqn:El; simpl in Ec; [discriminate|]. injection Ec as <-. apply (IH _ eq_refl).
+      * injection Ec as <-. unfold conn_entry in Ee. destruct e as [[a1 a2] bo].
+        destruct (a1 <? 0); [congruence|]. destruct (a2 <? 0); [congruence|]. destruct (_ || _); congruence.
+  - destruct (_ || _); [|congruence]. destruct (r_iutau r); [destruct (Qlt_b _ _)|]; congruence.
 Qed.
 
 Lemma triples_total n : forall g, List.length g = (3 * n)%nat -> exists p, triples g = Ok p.
@@ -494,10 +490,10 @@ Proof.
     destruct (IH r0 ltac:(lia)) as [p Hp]. simpl. rewrite Hp. eexists. reflexivity.
 Qed.
 
-Lemma triples_err g k : triples g = Err k -> k = PyValueError /\ (List.length g mod 3 <> 0)%nat.
+Lemma triples_err g k : triples g = Err k -> k = Validation /\ (List.length g mod 3 <> 0)%nat.
 Proof.
   intro H. split.
-  - assert (G : forall n g0 k0, (List.length g0 <= n)%nat -> triples g0 = Err k0 -> k0 = PyValueError).
+  - assert (G : forall n g0 k0, (List.length g0 <= n)%nat -> triples g0 = Err k0 -> k0 = Validation).
     { induction n as [|n IH]; intros g0 k0 L E.
       - destruct g0; [discriminate | simpl in L; lia].
       - destruct g0 as [|x [|y [|z r0]]]; simpl in E; try congruence.
@@ -507,20 +503,25 @@ Proof.
   - intro M. apply Nat.div_exact in M; [|discriminate]. destruct (triples_total _ g M) as [p Hp]. congruence.
 Qed.
 
-(** from_arrays raises ValidationError or NotAnElementError — or numpy's ValueError, and that only for a
-    geometry whose length is not a multiple of three (known finding C04-geom-not-3n-valueerror). *)
-Theorem from_arrays_errors r :
-  match from_arrays r with
-  | Ok _ => True
-  | Err k => k = Validation \/ k = NotAnElement \/ (k = PyValueError /\ (List.length (r_geom r) mod 3 <> 0)%nat)
-  end.
+(** a geometry whose length is not a multiple of three is refused with ValidationError (repaired 7b49268;
+    it used to escape as numpy's ValueError) *)
+Lemma rejects_geom_not_3n r : (List.length (r_geom r) mod 3 <> 0)%nat -> from_arrays r = Err Validation.
+Proof.
+  intro Hn. unfold from_arrays. destruct (_ && negb _); [reflexivity|].
+  destruct (units_stage r) as [[[u iu] conn]|k] eqn:Eu; [|cbn [obind]; rewrite (units_err _ _ Eu); reflexivity].
+  cbn [obind]. unfold geometry_stage. destruct (triples (r_geom r)) as [pts|k] eqn:Et.
+  - exfalso. apply Hn. rewrite (triples_length _ _ Et), Nat.mul_comm. apply Nat.mod_mul. discriminate.
+  - cbn [obind]. destruct (triples_err _ _ Et) as [-> _]. reflexivity.
+Qed.
+
+(** from_arrays raises ValidationError or NotAnElementError and nothing else. *)
+Theorem from_arrays_errors r : closed (from_arrays r).
 Proof.
   unfold from_arrays. destruct (_ && negb _); [left; reflexivity|].
-  pose proof (closed_units r) as Cu. destruct (units_stage r) as [[[u iu] conn]|k]; [|cbn [obind]; destruct Cu; auto].
+  destruct (units_stage r) as [[[u iu] conn]|k] eqn:Eu; [|cbn [obind]; left; apply (units_err _ _ Eu)].
   cbn [obind]. unfold geometry_stage.
-  destruct (triples (r_geom r)) as [pts|k] eqn:Et; [|right; right; apply triples_err, Et].
+  destruct (triples (r_geom r)) as [pts|k] eqn:Et; [|cbn [obind]; left; apply (triples_err _ _ Et)].
   cbn [obind]. destruct (too_close _ pts); [left; reflexivity|]. cbn [obind].
-  match goal with |- match ?X with _ => _ end => assert (C : closed X); [|destruct X; [exact I | destruct C; auto]] end.
   apply closed_obind.
   - unfold nuclei_stage. destruct (_ && _); [|left; reflexivity]. apply closed_mapM. intro x. apply reconcile_closed.
   - intros ros _. apply closed_obind.
